@@ -58,11 +58,24 @@ def find_class(cid):
     raise KeyError(cid)
 
 
+def prebuild(data, specs):
+    """Replace the dictionaries at the given paths by library objects built beforehand -- under allow_custom=True,
+    whatever the mode of the enclosing constructor is (deepest paths first)."""
+    for sp in sorted(specs, key=lambda x: -len(x["path"])):
+        holder = data
+        for k in sp["path"][:-1]:
+            holder = holder[k]
+        sub = holder[sp["path"][-1]]
+        holder[sp["path"][-1]] = find_class(sp["cid"])(allow_custom=True, **{k: v for k, v in sub.items() if k != "type"})
+
+
 def make(case, allow):
     import copy
     data = copy.deepcopy(case["data"])
     if case["route"] == "parse":
         return stix2.parse(data, allow_custom=allow)
+    if case.get("prebuilt"):
+        prebuild(data, case["prebuilt"])
     return find_class(case["cid"])(allow_custom=allow, **data)
 
 
@@ -79,6 +92,14 @@ def observe(case):
     out = {}
     if REGISTRATION_ERROR:
         out["registration_error"] = REGISTRATION_ERROR
+    if case.get("prebuilt"):
+        import copy
+        okp, _, errp = attempt(lambda: prebuild(copy.deepcopy(case["data"]), case["prebuilt"]))
+        if not okp:
+            # the value itself cannot be built: nothing to observe
+            out.update({"strict_ok": False, "strict_err": "prebuild: " + str(errp), "allow_ok": False, "allow_err": "prebuild: " + str(errp),
+                        "prebuild_failed": True})
+            return out
     ok, obj, err = attempt(lambda: make(case, False))
     out["strict_ok"] = ok
     out["strict_err"] = err
